@@ -101,12 +101,15 @@ Definition k_iline (le : bool) (s : isock) : bytes :=
        ([s_sl s; k_addr le (s_lip s) (s_lport s); k_addr le (s_rip s) (s_rport s); hexw 2 (s_st s)] ++ s_mid s)
        (s_inode s ++ s_tail s ++ [10]).
 
+(* tcp4_seq_show / udp4_seq_show pad every line, the header included, to 149 / 127 characters (seq_setwidth, seq_pad);
+   the IPv6 tables are not padded (validated against the running kernel by the live case) *)
 Definition hdr_tcp : bytes :=
-  bs "  sl  local_address rem_address   st tx_queue rx_queue tr tm->when retrnsmt   uid  timeout inode".
+  bs "  sl  local_address rem_address   st tx_queue rx_queue tr tm->when retrnsmt   uid  timeout inode" ++ repeat 32 53.
 Definition hdr_tcp6 : bytes :=
   bs "  sl  local_address                         remote_address                        st tx_queue rx_queue tr tm->when retrnsmt   uid  timeout inode".
 Definition hdr_udp : bytes :=
-  bs "   sl  local_address rem_address   st tx_queue rx_queue tr tm->when retrnsmt   uid  timeout inode ref pointer drops".
+  bs "   sl  local_address rem_address   st tx_queue rx_queue tr tm->when retrnsmt   uid  timeout inode ref pointer drops"
+  ++ repeat 32 12.
 Definition hdr_udp6 : bytes :=
   bs "  sl  local_address                         remote_address                        st tx_queue rx_queue tr tm->when retrnsmt   uid  timeout inode ref pointer drops".
 Definition hdr_unix : bytes := bs "Num       RefCount Protocol Flags    Type St Inode Path".
